@@ -70,6 +70,15 @@ def cases(tier, seed):
                 for f2 in fns:
                     if f1 < f2:
                         out.append({'k': 'seq', 'prog': name, 'kind': 'span_method_and_callee', 'at': [f1, f2], 'fc': fc})
+    # close to the recursion limit (the agent's own frames do not fit any more on some events): what was opened is still completed
+    # (spans opened on `probe`, which has the whole recursion above it; a span on `rec` is completed by the deepest return - matching is by name -, a frame that is itself
+    # within a handful of frames of the limit can be opened where it cannot be closed any more - any tool needs stack to act)
+    for fc in ('1', '-1'):
+        out.append({'k': 'seq', 'prog': 'near_limit', 'kind': 'span_method', 'at': 'probe', 'fc': fc})
+        out.append({'k': 'seq', 'prog': 'near_limit', 'kind': 'span_pair', 'at': 'probe', 'fc': fc})
+    # the agent is shut down while an invocation with deferred work is in progress: that work is still completed when the invocation ends
+    for kind in ('span_method', 'capture_method', 'span_and_capture', 'span_line'):
+        out.append({'k': 'shutdown-pending', 'kind': kind})
     for name in ('gen_partial', 'exc_propagates', 'calls', 'recursion'):
         lo = progs.load(name)
         for fn in progs.function_names(lo.code):
@@ -187,7 +196,62 @@ def lo_is_generator(prog, func):
     return f is not None and inspect.isgeneratorfunction(f)
 
 
+SHUTDOWN_SRC = '''
+def job(n, hook):
+    a = n + 1
+    hook()
+    b = a * 2
+    return b
+def main(hook):
+    r = job(1, hook)
+    return r
+'''
+
+
+def shutdown_pending(ctx, desc):
+    kind = desc['kind']
+    ns, path = rig.load_program('c15shut', SHUTDOWN_SRC)
+    line = SHUTDOWN_SRC.split('\n').index('    a = n + 1') + 1
+    tr = Trace()
+    j = rig.Journal()
+    sp = rig.RecSpanProcessor(j, where=tr.where)
+    agent = rig.Agent(plugins=[sp], journal=j)
+    pushes = []
+    real_push = agent.push.push_snapshot
+    agent.push.push_snapshot = lambda snap: (pushes.append(snap), real_push(snap))[1]
+    if kind == 'span_line':
+        trig = [make_trigger('c15shut', 'span_line', line, '-1')]
+    else:
+        trig = triggers_for('c15shut', kind, 'job', '-1')
+    agent.install(trig)
+    ctx.case()
+    ctx.nt(('shutdown-pending', kind))
+
+    def hook():
+        agent.handler.shutdown()
+    fw = Forwarder({path}, agent.handler, lambda ev, fr: tr.cur.__setitem__(threading.current_thread().name, ev))
+    with rig.VirtualClock():
+        run = fw.call(ns['main'], hook)
+    store = {k: len(v) for k, v in rig.ThreadLocal._ThreadLocal__store.items()}
+    rig.ThreadLocal._ThreadLocal__store.clear()
+    label = f'{kind} on job(), the agent is shut down while job() runs'
+    if run.escaped or run.exc is not None or run.result != 4:
+        ctx.violation('C15/shutdown-pending/program-disturbed', f'{label}: result {run.result} exc {run.exc!r} escaped {run.escaped[:1]}', desc)
+        return
+    spans = sp.spans
+    ctx.outcome(('shutdown-pending', kind, tuple(s_.closed for s_ in spans), len(pushes)))
+    if 'span' in kind and kind != 'span_line' and (not spans or any(s_.closed != 1 for s_ in spans)):
+        ctx.violation(f'C15/shutdown-pending/span-closed-{[s_.closed for s_ in spans]}-times/{kind}', f'{label}: close counts {[s_.closed for s_ in spans]} when job() had returned; '
+                      f'left in the pending store: {store}', desc)
+    elif 'capture' in kind and len(pushes) != 1:
+        ctx.violation(f'C15/shutdown-pending/capture-not-completed/{kind}', f'{label}: {len(pushes)} snapshots delivered when job() had returned; left in the pending store: {store}', desc)
+    elif store:
+        ctx.violation(f'C15/shutdown-pending/left-in-store/{kind}', f'{label}: the pending store still holds {store} after the thread\'s work ended', desc)
+
+
 def run_case(ctx, desc):
+    if desc['k'] == 'shutdown-pending':
+        return shutdown_pending(ctx, desc)
     if desc['k'] == 'seq':
         return seq(ctx, desc)
     if desc['k'] == 'reuse':
@@ -195,7 +259,43 @@ def run_case(ctx, desc):
     return conc(ctx, desc)
 
 
+def near_limit(ctx, desc):
+    """Spans on a program that recurses to within 1..4 frames of the recursion limit, the agent genuinely installed (a recorder would
+    need stack of its own): every span that was opened is closed exactly once, nothing stays pending."""
+    from ..drive import run_installed
+    prog, kind, at, fc = desc['prog'], desc['kind'], desc['at'], desc['fc']
+    lo = progs.load(prog)
+    j = rig.Journal()
+    sp = rig.RecSpanProcessor(j)
+    agent = rig.Agent(plugins=[sp], journal=j)
+    agent.install(triggers_for(prog, kind, at, fc))
+    limit = sys.getrecursionlimit()
+    try:
+        with rig.VirtualClock():
+            run = run_installed(agent.handler, lo.ns['main'])
+    finally:
+        sys.setrecursionlimit(limit)
+    store = {k: len(v) for k, v in rig.ThreadLocal._ThreadLocal__store.items()}
+    rig.ThreadLocal._ThreadLocal__store.clear()
+    ctx.case()
+    ctx.nt(('near-limit', kind, at, fc))
+    counts = [s_.closed for s_ in sp.spans]
+    ctx.outcome(('near-limit', kind, at, len(counts), sum(counts)))
+    label = f'near_limit {kind}@{at} fire_count={fc}'
+    if run.exc is not None or run.result != ['fits', 'fits', 'fits']:
+        ctx.violation('C15/near-limit/program-disturbed', f'{label}: result {run.result} exc {run.exc!r}', desc)
+    elif not counts:
+        ctx.violation('C15/near-limit/no-span-opened', f'{label}: no span was opened', desc)
+    elif any(c != 1 for c in counts):
+        ctx.violation(f'C15/near-limit/span-closed-not-once/{kind}', f'{label}: {len(counts)} spans opened, close counts {sorted(set(counts))} '
+                      f'({counts.count(0)} never closed); pending store afterwards: {store}', desc)
+    elif store:
+        ctx.violation(f'C15/near-limit/left-in-store/{kind}', f'{label}: pending store holds {store} afterwards', desc)
+
+
 def seq(ctx, desc):
+    if desc['prog'] == 'near_limit':
+        return near_limit(ctx, desc)
     prog, kind, at, fc = desc['prog'], desc['kind'], desc['at'], desc['fc']
     trig = triggers_for(prog, kind, at, fc, desc.get('at2'))
     lo, agent, j, tr, run = run_program(prog, trig, push_fails=bool(desc.get('push_fails')))
